@@ -22,6 +22,7 @@ func init() {
 		Assumptions: []string{"the driver knows every entry name it used, so the expected name set does not depend on the harness decoding kernel buffers", "kernel shadow = ground truth for the stream comparison"},
 		Batches:     func(t string) int { return map[string]int{"quick": 14, "thorough": 56}[t] },
 		RaceBatches: func(t string) int { return map[string]int{"quick": 1, "thorough": 14}[t] },
+		AsanBatches: func(t string) int { return map[string]int{"quick": 0, "thorough": 2}[t] },
 		MustObserve: []string{"names_checked", "events_received", "alias_cases"},
 		Run:         runC08,
 	})
